@@ -216,6 +216,22 @@ def run(chk, binary):
         files = [(nm, rng.choice([t for t in L.TEXTS if t.strip()]).encode()) for nm in rng.sample(D.FILE_NAMES, rng.choice([2, 3]))]
         mode = rng.choice([["--linewise", "--serial"], ["--linewise"], ["--serial"], []])
         djobs.append({"files": files, "opts": ["--json"] + mode, "cmds": ["-c", "e", "-m", "w", "-c", "name=second", "e"], "stdin": None})
+    # several files in the default rendering: every file has its section, also one whose output is only blanks
+    ljobs = []
+    for _ in range(40 if thorough else 10):
+        names = rng.sample(D.FILE_NAMES, 3)
+        files = [(names[0], b"alpha beta\n"), (names[1], rng.choice([b"\n\n", b"  \n", b" "])), (names[2], b"  indented\nx\n")]
+        rng.shuffle(files)
+        ljobs.append({"files": files, "opts": rng.choice([[], ["-d", ","], ["--serial"]]), "cmds": rng.choice([["-c", "l"], ["-m", "l"], ["-c", "l", "-c", "l"]]), "stdin": None})
+    for sc, ob in zip(ljobs, D.scenarios_map(binary, ljobs)):
+        chk.count(("listing", tuple(ob["argv"])), nontrivial=True)
+        if ob["rc"] != 0:
+            continue
+        so = ob["out"].decode("utf-8", errors="replace")
+        missing = [nm for nm, _ in sc["files"] if ("--- " + nm) not in so]
+        if missing:
+            chk.violation("spec:a file has no section in the listing of a multi-file run", {"argv": ob["argv"], "missing": missing,
+                          "files": [(a, b.decode(errors="replace")) for a, b in sc["files"]], "stdout": so[:400]})
     for sc, ob in zip(djobs, D.scenarios_map(binary, djobs)):
         chk.count(("json-files", tuple(ob["argv"])), nontrivial=True)
         if ob["rc"] != 0:
